@@ -62,7 +62,17 @@ def declare(decl, data_format=None):
     return field_class(decl["name"], bool(decl["empty"]), length_text(decl), fieldmodel.render_rule(decl["type"], decl.get("rule")), data_format)
 
 
-def cid_rows(preset, decls, checks=(), header=0, allowed=None, extra=(), line_delimiter=None):
+def quoted_items(items):
+    """A range text in which limits that are letters or digits are written as quoted characters ("A"..."Z")."""
+    def limit(value):
+        if value is None:
+            return ""
+        return '"%s"' % chr(value) if chr(value).isalnum() and value < 128 else str(value)
+
+    return ", ".join(limit(lo) if single else limit(lo) + "..." + limit(hi) for lo, hi, single in items)
+
+
+def cid_rows(preset, decls, checks=(), header=0, allowed=None, extra=(), line_delimiter=None, allowed_quoted=False):
     fmt, props, _, _ = PRESETS[preset]
     rows = [["D", "Format", fmt]]
     if header:
@@ -72,7 +82,7 @@ def cid_rows(preset, decls, checks=(), header=0, allowed=None, extra=(), line_de
     if line_delimiter:
         rows.append(["D", "Line delimiter", line_delimiter])
     if allowed:
-        rows.append(["D", "Allowed characters", fieldmodel.render_items(allowed)])
+        rows.append(["D", "Allowed characters", quoted_items(allowed) if allowed_quoted else fieldmodel.render_items(allowed)])
     for decl in decls:
         rows.append(["F", decl["name"], decl.get("example", ""), "X" if decl["empty"] else "", length_text(decl), decl["type"],
                      fieldmodel.render_rule(decl["type"], decl.get("rule"))])
